@@ -10,10 +10,12 @@ Local Open Scope N_scope.
     (values of the two package labels), and pathObjectMap - objects per path after parsing, with the
     verdicts of the conditional paths and of the CEL condition annotations.
     A case adds what the implementation did - whether all repeated renders (fresh file maps, hence
-    fresh map iteration orders) gave the same ObjectSetTemplateSpec and hash, and the phases of that
+    fresh map iteration orders, but ONE render context object handed to all of them) gave the same
+    ObjectSetTemplateSpec and hash, whether that render context (configuration, images, environment,
+    Package metadata) still had the digest it had before the first render, and the phases of the
     spec - and what the package generator says the phases must be. *)
 Definition scenario := (list N * N * N * list file)%type.
-Definition case := (scenario * (bool * collector) * collector)%type.
+Definition case := (scenario * (bool * bool * collector) * collector)%type.
 
 (** ** Equality of observations; Go maps are compared as sets of entries *)
 Definition kv_eqb (a b : kv) : bool := (fst a =? fst b) && (snd a =? snd b).
@@ -31,11 +33,11 @@ Definition model (s : scenario) : collector :=
 
 (** The model run on the reported pathObjectMap gives the implementation's phases. *)
 Definition agree (c : case) : bool :=
-  let '(s, (_, out), _) := c in coll_eqb (model s) out.
+  let '(s, (_, _, out), _) := c in coll_eqb (model s) out.
 
 (** The generator's ground truth: the phases it built the package to have. *)
 Definition expect_ok (c : case) : bool :=
-  let '(_, (_, out), expected) := c in coll_eqb expected out.
+  let '(_, (_, _, out), expected) := c in coll_eqb expected out.
 
 (** ** The property on the implementation's output *)
 Fixpoint subseqb (a b : list N) : bool :=
@@ -63,9 +65,13 @@ Definition obj_ok (mname pname : N) (oo : out_object) : bool :=
   option_eqb N.eqb (lookup L_INSTANCE (oo_labels oo)) (Some pname).
 
 Definition monitor (c : case) : bool :=
-  let '((phases, mname, pname, fs), (identical, out), _) := c in
+  let '((phases, mname, pname, fs), (identical, ctx_unchanged, out), _) := c in
   (* repeated renders of the unchanged package gave one template and one hash *)
   identical &&
+  (* rendering is a function OF files, configuration, images and environment: it left the render
+     context it was given as it was (the model's render takes the configuration as a value and
+     returns outputs only, Templates.render_stage; on the Go side this clause is the test) *)
+  ctx_unchanged &&
   (* phases in manifest order, each at most once *)
   subseqb (map fst out) phases && nodupb (map fst out) &&
   (* every object that passed the filters and names a manifest phase is in that phase exactly once,
@@ -168,11 +174,11 @@ Proof.
 Qed.
 
 (** Whatever the reported pathObjectMap, for a manifest with pairwise different phase names (enforced
-    by ValidatePackageManifest) the model's own output, rendered identically every time, satisfies the
-    monitor. *)
+    by ValidatePackageManifest) the model's own output, rendered identically every time from an
+    untouched context, satisfies the monitor. *)
 Theorem monitor_sound phases mname pname fs expected :
   NoDup phases ->
-  monitor ((phases, mname, pname, fs), (true, model (phases, mname, pname, fs)), expected) = true.
+  monitor ((phases, mname, pname, fs), (true, true, model (phases, mname, pname, fs)), expected) = true.
 Proof.
   intros Hnd. unfold monitor, model. cbn [andb].
   rewrite !andb_true_iff. repeat split.
